@@ -50,6 +50,10 @@ def run(res, a):
     if a.replay:
         rep = json.load(open(a.replay))
         c = {"id": "replay", "line": rep["case"], "kind": "replay", "meta": rep.get("meta"), "stream": rep.get("stream", "")}
+        if rep["case"].startswith("pm ") or rep["case"].startswith("he "):
+            from . import plainprops
+            core.run_correspondence(res, "plain", [c], plainprops, corr_name=plainprops.CORR)
+            return
         if rep["case"].startswith("pf "):
             import os
             o = core.shard_run(os.path.join(core.BUILD, "hcdrv"), "conn", ["replay " + rep["case"]]).get("replay", "NO-OUTPUT")
@@ -315,6 +319,9 @@ def run(res, a):
                                    "required": "before a connection is encrypted the HTTP layer is handed one request at a time (what was received behind a pair-verify finish is the beginning of the encrypted stream): " + o[:160],
                                    "failing_input_found": True, "replay": "python3 tools/check.py C05 --replay <this file>"}))
     res.obligations.append(("implementation-side runs: the plaintext phase hands over one request at a time", pbad == 0, "%d runs, %d failing" % (len(pf), pbad)))
+    # where a plain text message ends, byte for byte: Model/PlainFrame.v against plainHeaderEnd / plainMessageBytes
+    from . import plainprops
+    core.run_correspondence(res, "plain", plainprops.gen(core.rng_for(ID + "/plain", res.seed), a.tier), plainprops, corr_name=plainprops.CORR)
 
 
 
